@@ -1,6 +1,7 @@
 import Vore.Lemmas.Window
 import Vore.Lemmas.Replace
 import Vore.Lemmas.Ds
+import Vore.Lemmas.ScanQueue
 /-!
 # C04 — all/skip/take/top/last select windows of one and the same match sequence
 
@@ -82,6 +83,20 @@ theorem C04_queue_limit (q : Ds.Queue Match) (amount : Int) :
     (q.limit amount).store = q.store.drop (q.store.length - Ds.toU64 amount) :=
   Ds.limit_store q amount
 
+/-- **the scan loop over the real queue**: `findMatches` written with `ds.Queue` exactly as search.go uses it
+(`Push`, `Limit(last)` when `last != 0`, `Contents()` — `Vore.findMatchesQ`, Lemmas/ScanQueue.lean) is the same
+function as the `findMatches` all theorems of C01, C03, C04 are about, for every program, amount tuple, text and fuel -/
+theorem C04_scan_uses_queue_as_written (pf vf : Nat) (prog : List Instr) (amt : Amount) (text : Bytes) :
+    findMatchesQ pf vf prog amt text = findMatches pf vf prog amt text :=
+  findMatchesQ_eq pf vf prog amt text
+
+/-- … so the window theorem holds for the loop with the container code as written -/
+theorem C04_window_queue (pf vf : Nat) (body : List Instr) (text : Bytes) (cl : Clause) (hlast : ∀ n, cl = .last n → 1 ≤ n)
+    (A : List Match) (hall : findMatchesQ pf vf body Clause.all.amount text = some (.ok A)) :
+    findMatchesQ pf vf body cl.amount text = some (.ok (select cl A)) := by
+  rw [C04_scan_uses_queue_as_written] at hall ⊢
+  exact C04_window pf vf body text cl hlast A hall
+
 /-- non-vacuity: 1 2 3 4 through `Limit(2)` after every push leaves 3 4 -/
 example : ([1, 2, 3, 4].foldl (fun q m => (q.push m).limit 2) (Ds.Queue.new : Ds.Queue Nat)).contents = [3, 4] := by decide
 
@@ -92,5 +107,7 @@ example : ([1, 2, 3, 4].foldl (fun q m => (q.push m).limit 2) (Ds.Queue.new : Ds
 #print axioms C04_queue_step
 #print axioms C04_queue_last_n
 #print axioms C04_queue_limit
+#print axioms C04_scan_uses_queue_as_written
+#print axioms C04_window_queue
 
 end Vore
